@@ -1,6 +1,6 @@
 //go:build verif
 
-//verif:bounds fmtInt: all eleven built-in integer types (uint8..uint64, uint, uintptr, int8..int64, int) x base 8/10/16, value over the whole range of the type; padLen any int in the pad harness (values of at most 2 digits there); %s/%t: strings and byte slices of 0..3 bytes, widths 0..6; Fprintf scan: format strings of L fully symbolic bytes (quick 3, thorough 5), up to 2 arguments
+//verif:bounds fmtInt: all eleven built-in integer types (uint8..uint64, uint, uintptr, int8..int64, int) x base 8/10/16, value over the whole range of the type; padLen any int in the pad harness (values of at most 2 digits there); %s/%t: strings and byte slices of 0..3 bytes, widths 0..6; Fprintf scan: format strings of L fully symbolic bytes (quick 3, thorough 4) and the 5-byte shape %<digit><verb>%<verb> with three symbolic bytes, up to 2 arguments
 //verif:assumes output is captured by a harness io.Writer with a 48-byte buffer (writing past it is a Go index panic, i.e. a violation)
 package kfmt
 
@@ -303,7 +303,20 @@ func (o *vfOut) rep(c byte, n int) {
 //verif:split 6
 func Verif_C15_scan() {
 	L := zzverif.Param("fmtlen", 3, 4)
-	raw := zzverif.Bytes("fmt", 4)[:L]
+	vfScanCheck(zzverif.Bytes("fmt", 4)[:L], L)
+}
+
+// Two adjacent directives, the first with a one-digit width: "%<digit><verb>%<verb>" with the digit and both verb
+// bytes symbolic (a width must not leak into the directive that follows it without literal text in between).
+//verif:split 6
+func Verif_C15_scan_adjacent() {
+	raw := zzverif.Bytes("fmt", 5)
+	zzverif.Assume(zzverif.And(raw[0] == '%', raw[3] == '%'))
+	zzverif.Assume(zzverif.And(raw[1] >= '0', raw[1] <= '9'))
+	vfScanCheck(raw, 5)
+}
+
+func vfScanCheck(raw []byte, L int) {
 	format := string(raw)
 	argSel := zzverif.Choice("args", 5)
 	var args []interface{}
